@@ -92,6 +92,18 @@ def env0 (xb ob : Nat) : Env
 def run {K} (jk : Nat → Vec K) (P : Stmt K) (xb ob : Nat) (m : Nat → Vec K) : St K :=
   (exec jk P (env0 xb ob, { mem := m, next := 10 })).2
 
+/-- The store after `n` aliased calls `P(x, out=x)` on the same store (each call with its own
+junk in uninitialised temporaries) — what a solver does with `prox(x, out=x)` in every
+iteration. -/
+def aliasedCalls {K} (jks : Nat → Nat → Vec K) (P : Stmt K) : Nat → (Nat → Vec K) → (Nat → Vec K)
+  | 0, m => m
+  | n + 1, m => (run (jks n) P 0 0 (aliasedCalls jks P n m)).mem
+
+/-- `n`-fold application of a map (outermost last). -/
+def iter {α} (T : α → α) : Nat → α → α
+  | 0, v => v
+  | n + 1, v => T (iter T n v)
+
 /-! ### Parameters: scalar type operations that are not notation, and external functions -/
 
 structure Fns (K : Type) where
